@@ -20,14 +20,14 @@ func init() {
 		ID: "C06", Level: "exploration", Primary: "pipeline_shapes", EvalCount: "requests_numbered",
 		Rule: "one pipeline = N (1..256) requests of mixed operations on one connection, message IDs a random permutation-like draw (so Request.ID cannot be confused with the message ID), written in one " +
 			"segment or dribbled; some requests have no route (gaps in the observed numbering); a PRNG-chosen subset of handlers parks on a rendezvous: handler i returns only after handler i+d " +
-			"(or a handler on a second connection) has entered; a second family of pipelines performs a real StartTLS upgrade in the middle (numbering must continue across it); a third has its first handler blocked inside Write by a client that does not read (later handlers must still be entered); a fourth repeats message IDs within the pipeline (requests identified by DN, every handler waiting for all others); a fifth keeps a handler blocked while its own connection ends (FIN, reset, Unbind, malformed frame) and requires connections that exist already and connections made afterwards to be served meanwhile; a sixth sends N requests and, in the same write, an Unbind / half-close / close (every request that was read is handed to its handler); a seventh has a handler that outlives the server's read timeout while the client is silent, then further requests on that connection (whatever is still served carries its arrival position); every fourth mixed pipeline runs on a server created WithDisablePanicRecovery, every fifth over a TLS listener, every sixth on a server with a 30s read timeout. Oracle: Request.ID == 1-based position in the client's send order for every handler invocation; every rendezvous completes. " +
+			"(or a handler on a second connection) has entered; a second family of pipelines performs a real StartTLS upgrade in the middle (numbering must continue across it); a third has its first handler blocked inside Write by a client that does not read (later handlers must still be entered); a fourth repeats message IDs within the pipeline (requests identified by DN, every handler waiting for all others); a fifth keeps a handler blocked while its own connection ends (FIN, reset, Unbind, malformed frame) and requires connections that exist already and connections made afterwards to be served meanwhile; a sixth sends N requests and, in the same write, an Unbind / half-close / close (every request that was read is handed to its handler); a seventh has a handler that outlives the server's read timeout while the client is silent, then further requests on that connection (whatever is still served carries its arrival position); an eighth blocks 1250..1500 handlers at once over 5..6 connections of one server (each waits for all of them); every eighth short pipeline's add and modify requests carry a 100KB value; every fourth mixed pipeline runs on a server created WithDisablePanicRecovery, every fifth over a TLS listener, every sixth on a server with a 30s read timeout. Oracle: Request.ID == 1-based position in the client's send order for every handler invocation; every rendezvous completes. " +
 			"distinct_nontrivial = distinct (N, operation mix, rendezvous pattern, write mode) signatures with at least one satisfied rendezvous",
 		Assume: []string{"extended requests are identified by the exact-name route that served them (their message ID is not exposed to handlers)",
 			"a rendezvous that does not complete within the watchdog is judged only by the recorded enter/exit order (serial dispatch), otherwise inconclusive"},
 		Phases: func(tier string, seed int64) []Phase {
 			return []Phase{{Name: "pipelines", Run: c06Run}}
 		},
-		MinObserved: []string{"requests_numbered", "rendezvous_satisfied", "cross_connection_rendezvous_satisfied", "pipelines_with_starttls_upgrade", "pipelines_with_a_handler_blocked_in_write", "requests_served_through_the_default_route", "pipelines_with_repeated_message_ids", "connections_served_while_another_connections_handler_is_blocked", "fire_and_forget_pipelines", "pipelines_on_a_server_without_panic_recovery", "connections_with_a_handler_outliving_the_read_timeout", "pipelines_over_a_tls_listener", "pipelines_on_a_server_with_a_read_timeout", "extended_requests_under_well_known_names", "requests_carrying_a_100kb_value"},
+		MinObserved: []string{"requests_numbered", "rendezvous_satisfied", "cross_connection_rendezvous_satisfied", "pipelines_with_starttls_upgrade", "pipelines_with_a_handler_blocked_in_write", "requests_served_through_the_default_route", "pipelines_with_repeated_message_ids", "connections_served_while_another_connections_handler_is_blocked", "fire_and_forget_pipelines", "pipelines_on_a_server_without_panic_recovery", "connections_with_a_handler_outliving_the_read_timeout", "pipelines_over_a_tls_listener", "pipelines_on_a_server_with_a_read_timeout", "extended_requests_under_well_known_names", "requests_carrying_a_100kb_value", "runs_with_more_than_a_thousand_handlers_blocked_at_once"},
 	})
 }
 
@@ -794,6 +794,87 @@ func c06BeyondReadTimeout(c *Ctx, r *Rand, idx int) {
 	}
 }
 
+// c06ManyBlockedHandlers: well over a thousand handlers blocked at once, spread over several connections of one server
+// (each waits until ALL of them have been entered): however many handlers are already running, the next request read
+// on any connection is handed to its handler.
+func c06ManyBlockedHandlers(c *Ctx, r *Rand, idx int) {
+	nconn, per := 5+idx%2, 250
+	total := int64(nconn * per)
+	var entered atomic.Int64
+	all := make(chan struct{})
+	giveUp := make(chan struct{})
+	var once sync.Once
+	var bad atomic.Int64
+	srv, err := startSrv(SrvCfg{}, func(m *gldap.Mux) {
+		m.Delete(func(w *gldap.ResponseWriter, req *gldap.Request) {
+			dm, err := req.GetDeleteMessage()
+			if err != nil {
+				return
+			}
+			var pos int
+			fmt.Sscanf(dm.DN, "cn=p%d", &pos)
+			if req.ID != pos {
+				bad.Add(1)
+			}
+			if entered.Add(1) == total {
+				once.Do(func() { close(all) })
+			}
+			select {
+			case <-all:
+			case <-giveUp:
+			}
+			w.Write(req.NewResponse(gldap.WithApplicationCode(gldap.ApplicationDelResponse), gldap.WithResponseCode(0)))
+		})
+	})
+	if err != nil {
+		c.Inconclusive("server start: " + err.Error())
+		return
+	}
+	defer srv.StopWithin(patience)
+	var conns []net.Conn
+	for k := 0; k < nconn; k++ {
+		cn, err := net.Dial("tcp", srv.Addr)
+		if err != nil {
+			c.Inconclusive("dial: " + err.Error())
+			close(giveUp)
+			return
+		}
+		defer cn.Close()
+		conns = append(conns, cn)
+		var buf []byte
+		for i := 1; i <= per; i++ {
+			buf = append(buf, sber.Message(int64(i), sber.DelRequest([]byte(fmt.Sprintf("cn=p%d", i))), nil).Encode()...)
+		}
+		go cn.Write(buf)
+	}
+	ok := false
+	select {
+	case <-all:
+		ok = true
+	case <-time.After(20 * time.Second):
+	}
+	close(giveUp)
+	c.Count("requests_numbered", entered.Load())
+	c.Count("runs_with_more_than_a_thousand_handlers_blocked_at_once", 1)
+	if !ok {
+		c.Violate("a blocked handler delays the dispatch of later requests", fmt.Sprintf("%d connections x %d pipelined requests, every handler waiting until all %d have been entered: after 20s only %d had been handed to their handlers", nconn, per, total, entered.Load()), map[string]any{"connections": nconn, "per_connection": per})
+	} else {
+		c.Count("rendezvous_satisfied", 1)
+		c.Distinct("pipeline_shapes", fmt.Sprintf("many-blocked/%d", nconn))
+	}
+	if bad.Load() > 0 {
+		c.Violate("Request.ID is not the arrival position", fmt.Sprintf("%d of the %d requests were numbered otherwise", bad.Load(), total), nil)
+	}
+	for _, cn := range conns {
+		cl := wrapClient(cn)
+		for i := 0; i < per && ok; i++ {
+			if _, err := cl.ReadMsg(2 * time.Second); err != nil {
+				break
+			}
+		}
+	}
+}
+
 // c06OtherConnections: a handler of connection A stays blocked (on something that is not socket I/O) while A itself
 // ends - by FIN, reset, Unbind or a malformed frame. Whatever the server does about A, nothing on OTHER connections may
 // wait for that handler: connections that exist already and connections made afterwards are served within 10s while
@@ -998,6 +1079,9 @@ func c06Run(c *Ctx) {
 	}
 	for i := 0; i < c.N(60, 900); i++ {
 		c06FireAndForget(c, c.Rng.Sub(fmt.Sprintf("ff%d", i)), i)
+	}
+	for i := 0; i < c.N(1, 6); i++ {
+		c06ManyBlockedHandlers(c, c.Rng.Sub(fmt.Sprintf("mb%d", i)), i)
 	}
 	for i := 0; i < c.N(8, 100); i++ {
 		c06BeyondReadTimeout(c, c.Rng.Sub(fmt.Sprintf("rt%d", i)), i)
